@@ -1032,3 +1032,49 @@ def c16_r15(ctx):
                    detail="re.error from `%s` escapes the search" % norm.canon(c) if not ok else "", loc=ctx.nodeloc(f, c))
     if n < 1:
         raise AnalysisError("no run-time pattern compilation found in whoosh.query")
+
+
+@rule("C16", "R16", "K2", "turning the user's text into a date is fenced by a catch-all that yields an error node",
+      min_instances=1,
+      clause="In DateParserPlugin's filter every call that converts node text into a date (the methods of the plugin that reach "
+             "dateparser.date_from()/disambiguated()) sits in a try whose handler catches Exception (or everything) and produces "
+             "errorize(...)/an ErrorNode -- the idiom QueryParser.term_query uses for the field hooks. datetime() refuses 'feb 30' with "
+             "ValueError, incomplete range ends fail with AttributeError; neither is a DateParseError.")
+def c16_r16(ctx):
+    prog = ctx.prog
+    K = prog.cls("qparser.dateparse.DateParserPlugin")
+    f = K.methods.get("do_dates")
+    if f is None:
+        raise AnalysisError("DateParserPlugin.do_dates vanished")
+    ctx.saw(f)
+    # methods of the plugin that reach the date parser
+    converters = set()
+    for name, g in K.methods.items():
+        if name == "do_dates":
+            continue
+        if any(norm.call_name(c) in ("date_from", "disambiguated") for c in norm.calls_in(g.node)):
+            converters.add(name)
+    parents = {}
+    for p_ in ast.walk(f.node):
+        for ch in ast.iter_child_nodes(p_):
+            parents[id(ch)] = p_
+    n = 0
+    for c in norm.calls_in(f.node):
+        if not (isinstance(c.func, ast.Attribute) and norm.canon(c.func.value) == "self" and c.func.attr in converters):
+            continue
+        n += 1
+        ok = False
+        x = c
+        while id(x) in parents:
+            par = parents[id(x)]
+            if isinstance(par, ast.Try) and any(any(x is y for y in ast.walk(b)) for b in par.body):
+                for h in par.handlers:
+                    ht = norm.canon(h.type) if h.type is not None else "*"
+                    if ht in CATCH_ALL and any(norm.call_name(cc) in ("errorize", "ErrorNode") for cc in norm.calls_in(h)):
+                        ok = True
+            x = par
+        ctx.ob(f, ok, "self.%s(...) runs under a catch-all that yields an error node" % c.func.attr,
+               detail="an impossible date typed by the user escapes QueryParser.parse() as ValueError/AttributeError" if not ok else "",
+               loc=ctx.nodeloc(f, c))
+    if n < 2:
+        raise AnalysisError("only %d text-to-date conversions found in do_dates" % n)
